@@ -47,6 +47,15 @@ var c01Check = register("C01", "c01.encode", func(c *encCase) error {
 	if got != want {
 		return failf(sig, "NewMnemonicByEntropy(%x, %s) =\n  %q, BIP39 says\n  %q%s", c.Entropy, l, got, want, firstDiff(got, want, l))
 	}
+	// the returned sentence must stay what it was after a later call with another entropy
+	other := append([]byte(nil), c.Entropy...)
+	for i := range other {
+		other[i] ^= 0x5a
+	}
+	implEncode(other, implLang[l])
+	if got != want {
+		return failf(sig+" retained", "the sentence returned by NewMnemonicByEntropy(%x, %s) changed after a later call: it now reads %q", []byte(c.Entropy), l, got)
+	}
 	// the structural reading of the property's last sentence, independent of the lists
 	sep := l.Sep()
 	toks := strings.Split(got, sep)
@@ -76,7 +85,7 @@ func firstDiff(got, want string, l ref.Lang) string {
 	return ""
 }
 
-const c01Rule = "C01: (a) complete pairwise table \u2014 for each of 10 languages x 5 sizes, 2048 rotation entropies (word p = (s+89p) mod 2048) and 2048 counter-searched entropies realising every index in the checksum-bearing last word, i.e. every (language,size,position,index) tuple; (b) counter search realising all 256 first-SHA-256-byte values at every checksum width; (c) rapid-generated structured entropies (uniform, k leading zero bytes, runs of 0/1 bits at either end, all-0/all-1, single bit, edge indices, chosen hash byte) x language. Oracle: bit-slice reference encoder over golden lists, byte-for-byte, plus separator structure. Every case is non-trivial (no trivial encode exists); distinct by (language, entropy)"
+const c01Rule = "C01: (a) complete pairwise table \u2014 for each of 10 languages x 5 sizes, 2048 rotation entropies (word p = (s+89p) mod 2048) and 2048 counter-searched entropies realising every index in the checksum-bearing last word, i.e. every (language,size,position,index) tuple; (a') per language and size, the entropies whose sentences consist of the longest / shortest words of the list (extreme byte length); (b) counter search realising all 256 first-SHA-256-byte values at every checksum width; (c) rapid-generated structured entropies (uniform, k leading zero bytes, runs of 0/1 bits at either end, all-0/all-1, single bit, edge indices, chosen hash byte) x language. Oracle: bit-slice reference encoder over golden lists, byte-for-byte, plus separator structure. Every case is non-trivial (no trivial encode exists); distinct by (language, entropy)"
 
 func c01Record(c *encCase, tuples *tupleSet, hb *[5][256]bool) {
 	cov.Eval(1)
@@ -139,6 +148,13 @@ func TestC01_Table(t *testing.T) {
 			}
 		}
 	}
+	for _, l := range allLangs() {
+		for _, e := range extremeEntropies(l) {
+			c := &encCase{Lang: l.Name(), Entropy: e, Shape: "table-extreme-length"}
+			c01Record(c, tuples, &hb)
+			judge(t, "c01.encode", c01Check, c)
+		}
+	}
 	cov.ExtraAdd("tuples_lang_size_pos_idx_seen", int64(tuples.n))
 	n := 0
 	for i := range hb {
@@ -166,4 +182,28 @@ func TestC01_Random(t *testing.T) {
 		}
 		judge(rt, "c01.encode", c01Check, c)
 	})
+}
+
+// TestC01_AfterValidation: the table's rotation entropies again, in a process that has first
+// validated sentences in every language (lookup tables built, lists touched by the validator).
+func TestC01_AfterValidation(t *testing.T) {
+	cov.Rule(c01Rule + " || the rotation table is repeated in a process that validated a sentence in every language first")
+	for _, l := range allLangs() {
+		e := tableEntropies(16)[int(l)*7].Bytes
+		s := ref.Encode(e, l)
+		implCheck(s, implLang[l])
+		implValid("not "+s, implLang[l])
+	}
+	for _, size := range ref.Sizes {
+		tab := tableEntropies(size)
+		for _, l := range allLangs() {
+			for i := 0; i < 2048; i += pick(4, 1) {
+				c := &encCase{Lang: l.Name(), Entropy: tab[i].Bytes, Shape: "table-after-validation"}
+				cov.Eval(1)
+				cov.Class("after-validation")
+				cov.NonTrivial("enc-after-validation", []byte(c.Lang), c.Entropy)
+				judge(t, "c01.encode", c01Check, c)
+			}
+		}
+	}
 }
